@@ -364,3 +364,15 @@ package erpc
 //@   ensures[middle-suffix] forall i int :: 0 <= i && i < len(plugins) ==> result.middle.plugins[M + i] == old(plugins[i])
 //@   ensures[own-backing-array] len(plugins) == 0 || base(result.middle.plugins) != old(base(p.middle.plugins))
 //@   ensures[parent-list-kept] p.middle == old(p.middle) && len(p.middle.plugins) == M
+
+// refreshTree: after a clone is made, refreshing the parent's tree refreshes the
+// older part of the tree AND the whole subtree of the clone (the clone may get
+// clones of its own later), not just the clone itself. ghost.invoked records
+// which func values were called.
+//@ ghost global invoked intset
+//@ iface dynamic:func()
+//@   ghostset ghost.invoked = store(old(ghost.invoked), callee, true)
+//@ func (*PluginContainer).cloneAndAppendMiddle$1
+//@   property C09
+//@   ensures[refreshes-older] ghost.invoked[oldRefreshTree]
+//@   ensures[refreshes-subtree] ghost.invoked[old(newPluginContainer.refreshTree)]
